@@ -5,7 +5,7 @@ use std::{collections::HashMap, fmt::Debug};
 use serde::{Deserialize, Serialize};
 
 use crate::{
-    cf_types::ExtendedStyle,
+    cf_types::{ConditionalFormatting, ExtendedStyle},
     constants::{LAST_COLUMN, LAST_ROW},
     expressions::{
         parser::CompletionContext,
@@ -881,6 +881,52 @@ impl<'a> UserModel<'a> {
 
     /// Returns the diffs that remove the links of the cells in `range`, so that
     /// undoing a clear operation restores them.
+    /// Deleting rows or columns shrinks, shifts or removes conditional formats, and
+    /// re-inserting the rows or columns cannot bring the old ranges back. Returns the
+    /// diffs that do it: put *before* the `DeleteRows`/`DeleteColumns` diff they are
+    /// undone after it, and restore the rules in `old` that were changed (an update whose
+    /// new value is the old one) or removed (in decreasing index order). Applied forward
+    /// they leave the changed rules as they are and remove the rules the deletion removes.
+    pub(super) fn conditional_formatting_restore_diffs(
+        &self,
+        sheet: u32,
+        old: Vec<ConditionalFormatting>,
+    ) -> Result<Vec<Diff>, String> {
+        let new = &self.model.workbook.worksheet(sheet)?.conditional_formatting;
+        let mut updates = Vec::new();
+        let mut deletes = Vec::new();
+        // The deletion keeps the order of the rules it does not remove
+        let mut new_rules = new.iter().peekable();
+        for (index, old_cf) in old.into_iter().enumerate() {
+            match new_rules.peek() {
+                Some(new_cf) if new_cf.priority == old_cf.priority => {
+                    if **new_cf != old_cf {
+                        updates.push(Diff::UpdateConditionalFormatting {
+                            sheet,
+                            index: index as u32,
+                            old_range: old_cf.range.clone(),
+                            old_rule: Box::new(old_cf.cf_rule.clone()),
+                            old_priority: old_cf.priority,
+                            new_range: old_cf.range,
+                            new_rule: Box::new(old_cf.cf_rule),
+                        });
+                    }
+                    new_rules.next();
+                }
+                _ => deletes.push(Diff::DeleteConditionalFormatting {
+                    sheet,
+                    index: index as u32,
+                    old_range: old_cf.range,
+                    old_rule: Box::new(old_cf.cf_rule),
+                    old_priority: old_cf.priority,
+                }),
+            }
+        }
+        deletes.reverse();
+        updates.extend(deletes);
+        Ok(updates)
+    }
+
     pub(super) fn range_link_diffs(&self, range: &Area) -> Result<Vec<Diff>, String> {
         let mut diffs = Vec::new();
         for (&(row, column), link) in &self.model.workbook.worksheet(range.sheet)?.links {
@@ -1209,8 +1255,17 @@ impl<'a> UserModel<'a> {
             height: row_count,
         })?;
 
+        let old_conditional_formatting = self
+            .model
+            .workbook
+            .worksheet(sheet)?
+            .conditional_formatting
+            .clone();
+
         self.model.delete_rows(sheet, row, row_count)?;
 
+        diff_list
+            .extend(self.conditional_formatting_restore_diffs(sheet, old_conditional_formatting)?);
         diff_list.push(Diff::DeleteRows {
             sheet,
             row,
@@ -1286,8 +1341,17 @@ impl<'a> UserModel<'a> {
             height: LAST_ROW,
         })?;
 
+        let old_conditional_formatting = self
+            .model
+            .workbook
+            .worksheet(sheet)?
+            .conditional_formatting
+            .clone();
+
         self.model.delete_columns(sheet, column, column_count)?;
 
+        diff_list
+            .extend(self.conditional_formatting_restore_diffs(sheet, old_conditional_formatting)?);
         diff_list.push(Diff::DeleteColumns {
             sheet,
             column,
